@@ -112,19 +112,52 @@ def run_schedule(src, n=2, rounds=6, closing=10, faults=1, delays=0, configs=('L
     return cl, cfg, plan, senders, traces
 
 
-def groups(cl):
-    """sets of live instances that can all reach one another and have not isolated one another"""
+def split_brain_plan(n, max_len):
+    """plan_fn for run_schedule: one instance is cut from the others at round 2..3 for 1..max_len rounds, then the
+    partition heals (positions inside the rounds solver-chosen)"""
+    def plan_fn(src):
+        cut = src.pick_int('cut_instance', 0, n - 1)
+        start = src.pick_int('partition_round', 2, 3)
+        pos = src.pick_int('partition_pos', 0, n - 1)
+        length = src.pick_int('partition_length', 1, max_len)
+        hpos = src.pick_int('heal_pos', 0, n - 1)
+        plan = []
+        for other in range(n):
+            if other != cut:
+                a, b = min(cut, other), max(cut, other)
+                plan.append((start, pos, ('partition', a, b)))
+                plan.append((start + length, hpos, ('heal', a, b)))
+        return plan
+    return plan_fn
+
+
+def groups(cl, skipped=None):
+    """sets of live instances that can all reach one another and have not isolated one another.
+
+    The statement speaks of groups, i.e. it presumes that "reaches and has not isolated" partitions the live instances.
+    When it does not (A-B cut while C reaches both; A isolated B while C did not) the groups overlap and no instance
+    can report the Master of both: such connected components are left out (and counted in `skipped`)."""
     live = cl.live()
-    comps = []
+
+    def linked(c, o):
+        return (cl.net.reachable(c.ident, o.ident) and c.context.instances[o.ident].state.name != 'ISOLATED'
+                and o.context.instances[c.ident].state.name != 'ISOLATED')
+    comps, seen = [], set()
     for c in live:
-        placed = False
-        for g in comps:
-            if all(cl.net.reachable(c.ident, o.ident)
-                   and c.context.instances[o.ident].state.name != 'ISOLATED'
-                   and o.context.instances[c.ident].state.name != 'ISOLATED' for o in g):
-                g.append(c)
-                placed = True
-                break
-        if not placed:
-            comps.append([c])
+        if c.ident in seen:
+            continue
+        comp, todo = [], [c]
+        seen.add(c.ident)
+        while todo:
+            x = todo.pop()
+            comp.append(x)
+            for o in live:
+                if o.ident not in seen and linked(x, o):
+                    seen.add(o.ident)
+                    todo.append(o)
+        comp.sort(key=lambda x: x.ident)
+        if all(linked(a, b) for a in comp for b in comp if a is not b):
+            comps.append(comp)
+        elif skipped is not None:
+            skipped.append([x.ident for x in comp])
     return comps
